@@ -123,6 +123,17 @@ def run_case(kind, p):
             if not np.array_equal(d[k], ref):
                 msgs.append(f"template {template.shape} offset ({oy},{ox}) image {sy}x{sx} layer {k}: "
                             f"{d[k].tolist()} expected {ref.tolist()}")
+        # "the template has been copied": the caller refills its template buffer afterwards (the next stack is built from the same
+        # array); the stack built before keeps the values it was built from
+        if template.flags.writeable and not msgs:
+            before = np.asarray(st.todense()).copy()
+            keep_t = template.copy()
+            template *= -3
+            template += 1
+            if not np.array_equal(np.asarray(st.todense()), before):
+                msgs.append(f"template {template.shape}, {len(offs)} layer(s), offsets {offs}, image {sy}x{sx}: the stack changed when "
+                            f"the caller modified its template array afterwards")
+            template[...] = keep_t
         # the stack as it is used (layer selection, sum over layers, application to a frame as a sparse matrix), not only
         # its dense form
         try:
@@ -205,6 +216,13 @@ def search(ctx, boost=1, focus=()):
         if k % 3 == 0:
             p["mask_index"] = rng.permutation(nl).tolist()
         p["layout"] = "CFTSR"[(k // 6) % 5]
+        if k % 10 == 9:
+            # one layer, the stamp completely inside the image, the template an ordinary C-ordered array
+            sy, sx = max(sy, th + 2), max(sx, tw + 2)
+            p.update({"sy": sy, "sx": sx, "offsets": [[int(rng.integers(0, sy - th + 1)), int(rng.integers(0, sx - tw + 1))]],
+                      "layout": "C"})
+            p.pop("mask_index", None)
+            offs = p["offsets"]
         ctx.count("layout_" + p["layout"])
         ctx.oracle_case("stack", p, run_case("stack", p),
                         nontrivial=any(o[0] < 0 or o[1] < 0 or o[0] + th > sy or o[1] + tw > sx for o in offs))
